@@ -347,5 +347,10 @@ func TestC03(t *testing.T) {
 		driver := driver
 		parallelCases(vlib.Scale(12, 300), 4, func(i int) { contractEconomy(ev, "C03", driver, i) })
 	}
+	for _, driver := range vlib.Drivers() {
+		for _, nh := range []int{33, 40, 100} {
+			c03ManyHostsCutOff(ev, driver, nh)
+		}
+	}
 	finish(t, ev)
 }
